@@ -239,6 +239,29 @@ def run_extremes(d, res):
             py4hw.Reg(hw, 'rg', a, hw.wire('q', w))
         run('wide_into_narrow', v, wide_to_narrow)
 
+        # every one-operand primitive with an operand wider than its result, each in its own system
+        def one_op(cls, *extra):
+            def build(hw):
+                a = hw.wire('a', w + 2)
+                py4hw.Constant(hw, 'ka', v, a)
+                getattr(py4hw, cls)(hw, 'dut', a, *(list(extra) + [hw.wire('r', w)]))
+            return build
+        for cls, extra in (('SignExtend', ()), ('ZeroExtend', ()), ('Abs', ()), ('RotateLeftConstant', (1,)), ('RotateRightConstant', (1,)),
+                           ('RotateLeftConstant', (w + 1,)), ('ShiftLeftConstant', (1,)), ('ShiftRightConstant', (1,)), ('ShiftLeftConstant', (w + 3,))):
+            if hasattr(py4hw, cls):
+                run('wide_into_narrow:%s%s' % (cls, ''.join(':%d' % e for e in extra) if extra and extra[0] != 1 else ''), v, one_op(cls, *extra))
+
+        # a constant shift whose amount is a parameter of the enclosing block; the parameter is given another value after the
+        # simulator exists (the shifted word then no longer fits the result)
+        def param_shift(hw):
+            blk = py4hw.Logic(hw, 'blk')
+            blk.addParameter('SHIFT', 0)
+            a = hw.wire('a', max(w, 1))
+            py4hw.Constant(hw, 'ka', v, a)
+            py4hw.ShiftLeftConstant(blk, 'sl', a, blk.getParameter('SHIFT'), hw.wire('r', max(w, 1)))
+            return blk
+        run('shift_amount_parameter_changed', v, param_shift, post=lambda blk: blk.addParameter('SHIFT', 2))
+
         # two-operand and selecting primitives with ONE operand wider than the result, in either position and for either
         # selection (each in its own system so that a constructor that refuses the shape only removes that one case)
         def mixed(cls, pos, selv=None):
